@@ -149,12 +149,18 @@ func (core *JApiCore) closeLastExplicitContext() *jerr.JApiError {
 }
 
 func (core *JApiCore) HasUnclosedExplicitContext() bool {
+	return core.explicitContextDepth() != 0
+}
+
+// explicitContextDepth returns the number of currently opened explicit contexts.
+func (core *JApiCore) explicitContextDepth() int {
+	n := 0
 	for d := core.currentContextDirective; d != nil; d = d.Parent {
 		if d.HasExplicitContext {
-			return true
+			n++
 		}
 	}
-	return false
+	return n
 }
 
 func (core *JApiCore) processContextEnd() *jerr.JApiError {
@@ -169,7 +175,13 @@ func (core *JApiCore) processEOF() *jerr.JApiError {
 	if je := core.processCurrentDirective(); je != nil {
 		return je
 	}
-	if core.HasUnclosedExplicitContext() {
+	// An included file has to close only the explicit contexts which it has
+	// opened, the contexts opened by the including files stay open.
+	openedByIncluders := 0
+	if l := len(core.includeExplicitContextDepths); l != 0 {
+		openedByIncluders = core.includeExplicitContextDepths[l-1]
+	}
+	if core.explicitContextDepth() > openedByIncluders {
 		return core.japiError(jerr.ContextNotClosed, core.scanner.CurrentIndex()-1)
 	}
 	return nil
@@ -195,6 +207,9 @@ func (core *JApiCore) isScanningFinished() bool {
 		return true
 	}
 	core.scanner = s
+	if l := len(core.includeExplicitContextDepths); l != 0 {
+		core.includeExplicitContextDepths = core.includeExplicitContextDepths[:l-1]
+	}
 	return false
 }
 
